@@ -21,6 +21,12 @@ if len(sys.argv) > 2 and sys.argv[2] == "edge":
     files = "change1.diff, change2.diff, change3.diff"
     demos = "demo1.* , demo2.* , demo3.*"
     extra = " Prefer changes whose effect depends on VALUES at a boundary (empty string, empty collection, zero, negative numbers, first/last element, an index exactly at the length, 64-bit limits, strings that look like another type, keys that look like numbers or patterns, unusual but valid spellings of a value), on the ORDER of documents / results or state kept between documents, files or results, or on the COMMAND LAYER (cmd/: flag defaults, format names and aliases, file-extension detection, stdin versus file arguments, eval versus eval-all wiring). At most one of the three may sit in the operator or file the property's title points at most directly."
+if len(sys.argv) > 2 and sys.argv[2] == "paths":
+    # round 6: three changes on rarely taken paths
+    n_changes = "THREE"
+    files = "change1.diff, change2.diff, change3.diff"
+    demos = "demo1.* , demo2.* , demo3.*"
+    extra = " Prefer RARELY TAKEN PATHS: error handling and what happens after a partial failure (second document / second file / second result fails), options and preferences of encoders and decoders other than the defaults, operators applied to results of other operators (derived, re-parented or copied nodes), documents that use YAML features beyond plain maps and lists (anchors, aliases, merge keys, tags, comments, multi-document streams, block scalars, empty values), and the differences between `eval` and `eval-all`. Read how the code under the property is CALLED, not only the code itself, and put at least one change in a caller."
 p = [json.loads(l) for l in open('/verif/properties.jsonl') if json.loads(l)['id'] == pid][0]
 wt = "/tmp/wt-%s" % pid
 out = "/tmp/seed-%s" % pid
